@@ -81,17 +81,31 @@ S == [h |-> h, wtype |-> wtype, ftype |-> ftype, pos |-> pos, rsv |-> rsv, cmp |
 R(s, out, claims, res) == [s |-> s, out |-> out, claims |-> claims, res |-> res]
 Dead(s) == [s EXCEPT !.h = "dead"]           \* endMessage(err): w.err set, c.writer = nil
 
-\* messageWriter.Write(p) / WriteString(p) / ReadFrom(r), n bytes, plain (not wrapped) writer, buffer size b.
-\*   via "w", server and n > 2*len(writeBuf): flushFrame(false, p)  -- one frame of pos+n bytes
-\*   via "w" / "s": the ncopy loop -- a frame of exactly b bytes is flushed each time the buffer is full
-\*                  AND more data is pending (so a message of exactly b bytes is one final frame)
-\*   via "r": the ReadFrom loop flushes a full buffer BEFORE asking the reader for more, i.e. also when the
-\*            reader then reports EOF (a reader that returns its data with a nil error, then 0, EOF)
+(* The write API's sequential meaning (what `acc` and the claims state): the message delivered to the peer is the
+   concatenation, in call order, of all bytes accepted by the Write / WriteString / ReadFrom (io.Copy) calls
+   between NextWriter and Close -- for ReadFrom / io.Copy: every byte the source produced up to and including the
+   Read that reports io.EOF (io.Reader contract: a Read may return n > 0 together with io.EOF).
+
+   One streaming call of n bytes on a plain (not flate-wrapped) writer with buffer size b; `via` is the call kind:
+     "w"   Write(p); server and n > 2*len(writeBuf): flushFrame(false, p) -- one frame of pos+n bytes
+     "s"   WriteString(p)
+           "w" / "s": the ncopy loop -- a frame of exactly b bytes is flushed each time the buffer is full AND more
+           data is pending (so a message of exactly b bytes is one final frame)
+     "r"   io.Copy(w, src) = ReadFrom(src), src returns all its data with a nil error and then (0, io.EOF)
+     "re"  ... src returns its last bytes TOGETHER with io.EOF (n > 0, io.EOF), an empty src (0, io.EOF)
+     "rc", "rce"  the same two with a src that hands out at most a few bytes per Read
+           the ReadFrom loop flushes a full buffer BEFORE asking the reader for more: with "r"/"rc" that is also the
+           case when the reader then only reports EOF, with "re"/"rce" only when more data follows (or the call
+           starts on a full buffer).  The chunking of the source does not change the frames.
+   On a flate-wrapped writer io.Copy / io.WriteString fall back to Write calls (CmpWrite whatever `via`).      *)
+Vias    == {"w", "s", "r", "re", "rc", "rce"}
+EofSep(via)  == via \in {"r", "rc"}
+EofWith(via) == via \in {"re", "rce"}
 PlainWrite(s, n, b, server, via) ==
   LET total == s.pos + n
       large == server /\ via = "w" /\ n > 2 * (b + Hdr)
       k     == IF large THEN 1
-               ELSE IF via = "r" THEN total \div b
+               ELSE IF EofSep(via) \/ (EofWith(via) /\ n = 0) THEN total \div b
                ELSE IF n = 0 \/ total <= b THEN 0 ELSE (total - 1) \div b
   IN IF k = 0 THEN R([s EXCEPT !.pos = total, !.acc = @ + n], <<>>, <<>>, "ok")
      ELSE IF IsControl(s.ftype) THEN R(Dead(s), <<>>, <<>>, "err")     \* errInvalidControlFrame (!final)
@@ -308,7 +322,7 @@ DataSizes(t) == IF IsControl(t) THEN CtlSizes ELSE IF t = BadType THEN {1} ELSE 
 
 Next ==
   \/ \E t \in Types, z \in ZSet, j \in JOpen : ANextWriter(t, z, j)
-  \/ \E n \in Sizes(B), j \in JOpen, via \in (IF h = "open" /\ ~cmp THEN {"w", "s", "r"} ELSE {"w"}) :
+  \/ \E n \in Sizes(B), j \in JOpen, via \in (IF h = "open" THEN (IF cmp THEN {"w", "r", "re"} ELSE {"w", "s", "r", "re"}) ELSE {"w"}) :
         AWrite(n, IF n = 0 THEN 0 ELSE j, via)
   \/ \E j \in JOpen : AClose(j)
   \/ \E t \in Types, z \in ZSet : \E n \in DataSizes(t), j1 \in JOpen, j2 \in JNew(t, z) :
